@@ -270,6 +270,10 @@ func (p *pathIterator) lit() (string, bool) {
 		}
 	}
 ret:
+	if i == p.pos && i < len(p.src) {
+		// always make progress: a byte no token starts with (a backslash) is a literal of its own
+		i++
+	}
 	val := p.src[p.pos:i]
 	p.pos = i
 	return val, isInt
